@@ -132,6 +132,8 @@ structure St where
   model : String := ""
   expected : List (String × String) := []
   firstRun : Option String := none
+  /-- import path of the kernel module as its go.mod declares it (`#module` line) -/
+  modulePath : String := "github.com/ProjectSerenity/firefly/kernel"
 
 def bumpTree (st : Stats) (t : Tree) (nAnn : Nat) : Stats :=
   let s := treeStats 0 {} t
@@ -145,6 +147,7 @@ def processLine (st : St) (line : String) : IO St := do
   match toks line with
   | [] => return st
   | ["case", id] => return { st with caseId := id, tree := none, firstRun := none, stats := st.stats.bump "cases" }
+  | ["#module", m] => return { st with modulePath := strOfHex m }
   | "#tree" :: digest :: rest =>
     match parseTree rest with
     | .error e =>
@@ -154,7 +157,10 @@ def processLine (st : St) (line : String) : IO St := do
       let ann := annotations t
       return { st with tree := some t, digest := digest, firstRun := none,
                        model := showResult (findRedirects t),
-                       expected := ann.map fun (s, d) => (hexOfStr s, hexOfStr d),
+                       -- "fully qualified" is judged against the module path of kernel/go.mod, not
+                       -- against the constant the code (and hence the model) uses
+                       expected := ann.map fun (s, d) =>
+                         (hexOfStr s, hexOfStr (st.modulePath ++ (d.drop Gen.C20.pkgPrefix.length).toString)),
                        stats := bumpTree st.stats t ann.length }
   | ["run", digest, "|", "panic"] =>
     IO.println s!"PROPFAIL case={st.caseId} clause=no-crash feature=panic op=run {digest} impl=panic"
